@@ -28,7 +28,7 @@ def copy_replace(n, fn):
             setattr(new, fld, [copy_replace(x, fn) for x in val])
         else:
             setattr(new, fld, copy_replace(val, fn))
-    for a in ('lineno', 'col_offset', 'end_lineno', 'end_col_offset'):
+    for a in ('lineno', 'col_offset', 'end_lineno', 'end_col_offset', '_appended'):
         if hasattr(n, a):
             setattr(new, a, getattr(n, a))
     return new
@@ -65,7 +65,8 @@ def atomize(test, val):
 
 
 class SymExec:
-    def __init__(self, ctx, func, depth=2, expand=True, bind_loops=False, no_expand=()):
+    def __init__(self, ctx, func, depth=2, expand=True, bind_loops=False, no_expand=(), max_paths=MAX_PATHS):
+        self.max_paths = max_paths
         self.no_expand = no_expand      # qualified names of callees that are not looked through
         self.ctx = ctx
         self.func = func
@@ -89,6 +90,17 @@ class SymExec:
                 # element of a comprehension as an expression of the iterable: _each(elt[target := ITER[_k]])
                 g = n.generators[0]
                 it = self.subst(g.iter, env)
+                if isinstance(it, (ast.Tuple, ast.List)) and len(it.elts) <= 16 and \
+                   not any(isinstance(x, ast.Starred) for x in it.elts):
+                    elts = []
+                    for item in it.elts:
+                        q_ = Path({k_: v_ for k_, v_ in env.items()}, ())
+                        for x in ast.walk(g.target):
+                            if isinstance(x, ast.Name):
+                                q_.env.pop(x.id, None)
+                        self._assign(g.target, item, q_, None)
+                        elts.append(self.subst(n.elt, q_.env))
+                    return ast.List(elts=elts, ctx=ast.Load())
                 p_ = Path({k_: v_ for k_, v_ in env.items()}, ())
                 for x in ast.walk(g.target):
                     if isinstance(x, ast.Name):
@@ -125,8 +137,7 @@ class SymExec:
             return None
         if any(isinstance(a, ast.Starred) for a in call.args) or any(k.arg is None for k in call.keywords):
             return None
-        if any(isinstance(n, (ast.Yield, ast.YieldFrom, ast.For, ast.While, ast.Try, ast.With))
-               for n in walk_no_nested(g.node)):
+        if any(isinstance(n, (ast.Yield, ast.YieldFrom)) for n in walk_no_nested(g.node)):
             return None
         return g
 
@@ -168,6 +179,9 @@ class SymExec:
                 continue
             if p.end != 'return' or p.ret is None or p.stores:
                 return None
+            for n_ in ast.walk(p.ret):
+                if getattr(n_, '_appended', False):
+                    n_._appended = False
             res.append((p.ret, p.conds))
         return res or None
 
@@ -200,6 +214,9 @@ class SymExec:
                 return None
             if p.stores:
                 return None         # helper with side effects on attributes: not a pure formula
+            for n_ in ast.walk(p.ret):
+                if getattr(n_, '_appended', False):
+                    n_._appended = False    # for the caller these are entries of a value, not yet lines
             res.append((p.ret, p.conds))
         return res or None
 
@@ -242,8 +259,8 @@ class SymExec:
                     continue
                 nxt += self._stmt(st, p)
             paths = nxt
-            if len(paths) > MAX_PATHS:
-                raise AnalysisError('%s: more than %d symbolic paths' % (self.func.qual, MAX_PATHS))
+            if len(paths) > self.max_paths:
+                raise AnalysisError('%s: more than %d symbolic paths' % (self.func.qual, self.max_paths))
         return paths
 
     def _assign(self, target, value, p, st):
@@ -344,6 +361,35 @@ class SymExec:
                 p2.conds = p2.conds + tuple(a for a in ats if a not in p2.conds)
                 out += self._block(blk, [p2])
             return out
+        if isinstance(st, ast.For) and self.bind_loops and not st.orelse:
+            it0 = self.subst(st.iter, p.env)
+            if isinstance(it0, (ast.Tuple, ast.List)) and len(it0.elts) <= 12 and \
+               not any(isinstance(x, ast.Starred) for x in it0.elts):
+                # a loop over a literal: executed element by element
+                paths = [p]
+                for item in it0.elts:
+                    nxt = []
+                    for q in paths:
+                        if q.end is not None:
+                            nxt.append(q)
+                            continue
+                        q = q.fork()
+                        for n in ast.walk(st.target):
+                            if isinstance(n, ast.Name):
+                                q.env.pop(n.id, None)
+                        self._assign(st.target, item, q, None)
+                        q.stores = [s_ for s_ in q.stores if s_[2] is not None]
+                        for b in self._block(st.body, [q]):
+                            if b.end == 'continue':
+                                b.end = None
+                            nxt.append(b)
+                    paths = nxt
+                    if len(paths) > self.max_paths:
+                        raise AnalysisError('%s: more than %d symbolic paths' % (self.func.qual, self.max_paths))
+                for b in paths:
+                    if b.end == 'break':
+                        b.end = None
+                return paths
         if isinstance(st, (ast.For, ast.While)):
             p2 = p.fork()
             if isinstance(st, ast.For):
@@ -443,6 +489,8 @@ class SymExec:
                             add = list(a0.elts)
                         else:
                             add = [ast.Starred(value=a0, ctx=ast.Load())]
+                        for x_ in add:
+                            x_._appended = True     # entered the list through a recorded call
                         p2.env[d] = ast.List(elts=list(cur.elts) + add, ctx=ast.Load())
                     elif d is not None:
                         # other in-place container methods invalidate what is known about the receiver
@@ -483,6 +531,22 @@ def simplify(e):
            isinstance(n.slice, ast.Constant) and isinstance(n.slice.value, int) and \
            -len(n.value.elts) <= n.slice.value < len(n.value.elts):
             return simplify(n.value.elts[n.slice.value])
+        if isinstance(n, ast.Call) and isinstance(n.func, ast.Name) and n.func.id == 'len' and len(n.args) == 1 \
+           and not n.keywords:
+            a = simplify(n.args[0])
+            if isinstance(a, (ast.Tuple, ast.List)) and not any(isinstance(x, ast.Starred) for x in a.elts):
+                return ast.Constant(value=len(a.elts))
+        if isinstance(n, ast.Call) and isinstance(n.func, ast.Name) and n.func.id in ('tuple', 'list') and \
+           len(n.args) == 1 and not n.keywords:
+            a = simplify(n.args[0])
+            if isinstance(a, (ast.Tuple, ast.List)) and not any(isinstance(x, ast.Starred) for x in a.elts):
+                cls = ast.Tuple if n.func.id == 'tuple' else ast.List
+                return cls(elts=list(a.elts), ctx=ast.Load())
+        if isinstance(n, ast.BinOp) and isinstance(n.op, ast.Add):
+            l, r = simplify(n.left), simplify(n.right)
+            if type(l) is type(r) and isinstance(l, (ast.Tuple, ast.List)) and \
+               not any(isinstance(x, ast.Starred) for x in l.elts + r.elts):
+                return l.__class__(elts=list(l.elts) + list(r.elts), ctx=ast.Load())
         return None
     return copy_replace(e, fn)
 
@@ -544,16 +608,15 @@ def line_exprs(path, with_iter=False):
     if path.ret is not None:
         joins = [n for n in ast.walk(path.ret) if isinstance(n, ast.Call) and isinstance(n.func, ast.Attribute)
                  and n.func.attr == 'join' and len(n.args) == 1]
-        have = {norm(e) for e, st, it in out}
         for n in joins:
             a0 = n.args[0]
             if isinstance(a0, ast.List):
-                # entries of the list literal the writer started from (r = [first, second])
+                # entries of the list literal the writer started from (r = [first, second]); entries
+                # that came in through append / extend are marked and already counted
                 for x in a0.elts:
-                    x = x.value if isinstance(x, ast.Starred) else x
-                    key = norm(x.args[0]) if _is_each(x) else norm(x)
-                    if key not in have:
-                        add(x, None)
+                    if getattr(x, '_appended', False):
+                        continue
+                    add(x, None)
             elif _is_each(a0):
                 add(a0, None)
         if not joins:
